@@ -6,6 +6,7 @@ import OFV.Model.C15
 import OFV.Proofs.C14Swap
 import Mathlib.Algebra.Ring.Rat
 import Mathlib.Tactic.Ring
+import Mathlib.Algebra.Group.Basic
 import Mathlib.Tactic.Linarith
 import Mathlib.Algebra.BigOperators.Group.List.Basic
 import Mathlib.Analysis.SpecialFunctions.Pow.Real
@@ -241,5 +242,15 @@ theorem lrComponents_sums (n : Nat) : ∀ (cs : List (Nat → Nat → Rat)) (j :
     simp only [lrComponents, List.map_append, List.sum_append, net, dg, i2, i3, i5, List.map_cons,
       List.sum_cons]
     refine ⟨?_, ?_, ?_⟩ <;> simp [coeffOfKind]
+
+/-- single-particle matrices of the basis changes of `AsymmetricLowRankTrotterStep.trotter_step` after the first one:
+`merged_j = prior · B_j⁻¹` for the components' bases `B_1 … B_J` (`prior` starts as the one-body basis `W`), then `B_J` -/
+def lrBasisSeq {G : Type} [Group G] (W : G) : List G → List G
+  | [] => [W]
+  | B :: Bs => (W * B⁻¹) :: lrBasisSeq B Bs
+
+theorem lrBasisSeq_prod {G : Type} [Group G] : ∀ (Bs : List G) (W : G), (lrBasisSeq W Bs).prod = W
+  | [], W => by simp [lrBasisSeq]
+  | B :: Bs, W => by simp [lrBasisSeq, lrBasisSeq_prod Bs B]
 
 end OFV.C15
